@@ -40,7 +40,7 @@ var delims = []byte{',', ',', ',', ';', '\t', '|', ' ', 'x', '0', 0x00, 0xff}
 
 var strPieces = []string{"a", "b", "abc", "x", " ", "  ", "\"", "\"\"", "\n", "é", "\xff", "\xc3", "0", "t", "-", ".", "'", "$", "Z", "漢"}
 var intCells = []string{"0", "1", "-1", "12", "+7", "007", "123456789", "-0", "9223372036854775807"}
-var floatCells = []string{"1.5", "-2.25", "1e3", "NaN", "inf", "-Inf", "0.1", ".5", "5.", "1E-7", "-0.0", "0x1p-2"}
+var floatCells = []string{"1.5", "-2.25", "1e3", "NaN", "inf", "-Inf", "0.1", ".5", "5.", "1E-7", "-0.0", "0x1p-2", "9300000000000000000", "18446744073709551615", "123456789012345678901234567890", "0.30000000000000004"}
 var boolCells = []string{"true", "false", "t", "f", "T", "F", "TRUE", "False"}
 
 func drawCell(t *rapid.T, flavour int, delim byte, long bool) string {
